@@ -83,14 +83,14 @@ Ltac setters :=
   | rewrite opt_u64_ok by assumption ].
 
 (** ** 802.15.4 PduReceived *)
-Lemma d15_pdu_from_to codec m :
-  wf_d15_pdu codec m = true -> bind (d15_pdu_to codec m) d15_pdu_from = Ok m.
+Lemma d15_pdu_from_to_body codec m :
+  wf_d15_pdu codec m = true -> bind (d15_pdu_to_body codec m) d15_pdu_from_body = Ok m.
 Proof.
   destruct m as [ch pdu rssi ts valid lqi]. unfold wf_d15_pdu. cbn [dp_channel dp_pdu dp_rssi dp_timestamp dp_valid dp_lqi].
   intros H. split_and.
   destruct (dissect_canon _ _ _ H0) as [s E].
-  unfold d15_pdu_to. cbn [dp_pdu]. rewrite E. cbn [bind fst].
-  unfold d15_pdu_from, has_d15, get_md, md_d15. cbn.
+  unfold d15_pdu_to_body. cbn [dp_pdu]. rewrite E. cbn [bind fst].
+  unfold d15_pdu_from_body, has_d15, get_md, md_d15. cbn.
   setters. reflexivity.
 Qed.
 
@@ -105,14 +105,14 @@ Ltac use_canon :=
       let s := fresh "s" in let E := fresh "E" in destruct (dissect_canon _ _ _ H) as [s E]
   end.
 
-Lemma d15_pdu_to_from codec p :
-  wfp_d15_pdu codec p = true -> bind (d15_pdu_from p) (d15_pdu_to codec) = Ok p.
+Lemma d15_pdu_to_from_body codec p :
+  wfp_d15_pdu codec p = true -> bind (d15_pdu_from_body p) (d15_pdu_to_body codec) = Ok p.
 Proof.
   destruct p as [top sub b [m|]]; [destruct m|]; unfold wfp_d15_pdu, wfmd_d15, md_no_ble, md_no_esb, md_no_phy;
     intros H; use_wf H; try discriminate.
   use_canon.
-  unfold d15_pdu_from, has_d15, get_md. cbn. setters. cbn.
-  unfold d15_pdu_to. cbn. rewrite E. cbn. reflexivity.
+  unfold d15_pdu_from_body, has_d15, get_md. cbn. setters. cbn.
+  unfold d15_pdu_to_body. cbn. rewrite E. cbn. reflexivity.
 Qed.
 
 (** ** Bytes *)
@@ -227,78 +227,78 @@ Qed.
 Global Opaque in_u32 in_u16 in_u24 split_fcs.
 
 (** ** 802.15.4 RawPduReceived *)
-Lemma d15_raw_from_to codec m :
-  wf_d15_raw codec m = true -> bind (d15_raw_to codec m) d15_raw_from = Ok m.
+Lemma d15_raw_from_to_body codec m :
+  wf_d15_raw codec m = true -> bind (d15_raw_to_body codec m) d15_raw_from_body = Ok m.
 Proof.
   destruct m as [ch pdu fcs rssi ts valid lqi]. unfold wf_d15_raw. cbn [dr_channel dr_pdu dr_fcs dr_rssi dr_timestamp dr_valid dr_lqi].
   intros H. split_and.
   match goal with Hc : canon _ _ _ = true |- _ => destruct (canon_inv _ _ _ Hc) as [s E] end.
-  unfold d15_raw_to. cbn [dr_fcs dr_pdu dr_channel dr_rssi dr_timestamp dr_valid dr_lqi].
+  unfold d15_raw_to_body. cbn [dr_fcs dr_pdu dr_channel dr_rssi dr_timestamp dr_valid dr_lqi].
   match goal with Hf : in_u16 fcs = true |- _ => rewrite Hf; pose proof (in_u16_u32 _ Hf) end.
   cbn [negb]. rewrite E. cbn [bind].
-  unfold d15_raw_from. cbn [p_top p_bytes p_md layer_eqb orb get_md md_d15].
+  unfold d15_raw_from_body. cbn [p_top p_bytes p_md layer_eqb orb get_md md_d15].
   replace (length (pdu ++ le16z fcs) <? 2)%nat with false
     by (symmetry; apply Nat.ltb_ge; rewrite app_length; cbn; lia).
   rewrite split_fcs_app by assumption. cbn. setters. reflexivity.
 Qed.
 
-Lemma d15_raw_to_from codec p :
-  wfp_d15_raw codec p = true -> bind (d15_raw_from p) (d15_raw_to codec) = Ok p.
+Lemma d15_raw_to_from_body codec p :
+  wfp_d15_raw codec p = true -> bind (d15_raw_from_body p) (d15_raw_to_body codec) = Ok p.
 Proof.
   destruct p as [top sub b [m|]]; [destruct m|]; unfold wfp_d15_raw, wfmd_d15, md_no_ble, md_no_esb, md_no_phy;
     intros H; use_wf H; try discriminate.
   match goal with Hl : (2 <=? length b)%nat = true |- _ => apply Nat.leb_le in Hl end.
   match goal with Hw : wf_bytes b = true, Hl : (2 <= length b)%nat |- _ => destruct (join_fcs b Hw Hl) as [Ej Eu] end.
   match goal with Hc : canon _ _ _ = true |- _ => destruct (canon_inv _ _ _ Hc) as [s E] end.
-  unfold d15_raw_from. cbn [p_top p_bytes p_md layer_eqb orb get_md].
+  unfold d15_raw_from_body. cbn [p_top p_bytes p_md layer_eqb orb get_md].
   replace (length b <? 2)%nat with false by (symmetry; apply Nat.ltb_ge; assumption).
   cbn. pose proof (in_u16_u32 _ Eu). setters. cbn.
-  unfold d15_raw_to. cbn. rewrite Eu. cbn. rewrite Ej, E. reflexivity.
+  unfold d15_raw_to_body. cbn. rewrite Eu. cbn. rewrite Ej, E. reflexivity.
 Qed.
 
 (** ** ESB / Unifying *)
 Lemma force_preamble_id b : preamble_aa b = true -> force_preamble b = b.
 Proof. destruct b as [|x t]; cbn; [reflexivity|]. intros H. apply N.eqb_eq in H. now subst. Qed.
 
-Lemma esb_pdu_from_to codec uni m :
-  wf_esb_rx codec (esb_payload uni) m = true -> bind (esb_pdu_to codec uni m) (esb_rx_from false) = Ok m.
+Lemma esb_pdu_from_to_body codec uni m :
+  wf_esb_rx codec (esb_payload uni) m = true -> bind (esb_pdu_to_body codec uni m) (esb_rx_from_body false) = Ok m.
 Proof.
   destruct m as [ch pdu rssi ts valid addr]. unfold wf_esb_rx. cbn [er_channel er_pdu er_rssi er_timestamp er_valid er_address].
   intros H. split_and. use_canon.
-  unfold esb_pdu_to. cbn [er_pdu]. rewrite E. cbn [bind fst].
-  unfold esb_rx_from, get_md, md_esb. cbn. setters. reflexivity.
+  unfold esb_pdu_to_body. cbn [er_pdu]. rewrite E. cbn [bind fst].
+  unfold esb_rx_from_body, get_md, md_esb. cbn. setters. reflexivity.
 Qed.
 
-Lemma esb_raw_from_to codec uni m :
+Lemma esb_raw_from_to_body codec uni m :
   wf_esb_rx codec (esb_hdr uni) m = true -> (if uni then preamble_aa (er_pdu m) else true) = true ->
-  bind (esb_raw_to codec uni m) (esb_rx_from uni) = Ok m.
+  bind (esb_raw_to_body codec uni m) (esb_rx_from_body uni) = Ok m.
 Proof.
   destruct m as [ch pdu rssi ts valid addr]. unfold wf_esb_rx. cbn [er_channel er_pdu er_rssi er_timestamp er_valid er_address].
   intros H Hp. split_and. use_canon.
-  unfold esb_raw_to. cbn [er_pdu]. rewrite E. cbn [bind fst].
-  unfold esb_rx_from, get_md, md_esb. destruct uni; cbn; [rewrite (force_preamble_id _ Hp)|]; setters; reflexivity.
+  unfold esb_raw_to_body. cbn [er_pdu]. rewrite E. cbn [bind fst].
+  unfold esb_rx_from_body, get_md, md_esb. destruct uni; cbn; [rewrite (force_preamble_id _ Hp)|]; setters; reflexivity.
 Qed.
 
-Lemma esb_pdu_to_from codec uni p :
-  wfp_esb_pdu codec uni p = true -> bind (esb_rx_from false p) (esb_pdu_to codec uni) = Ok p.
+Lemma esb_pdu_to_from_body codec uni p :
+  wfp_esb_pdu codec uni p = true -> bind (esb_rx_from_body false p) (esb_pdu_to_body codec uni) = Ok p.
 Proof.
   destruct p as [top sub b [m|]]; [destruct m|]; unfold wfp_esb_pdu, wfmd_esb, md_no_ble, md_no_d15, md_no_phy;
     intros H; use_wf H; try discriminate.
   use_canon.
-  unfold esb_rx_from, get_md. cbn. setters. cbn.
-  unfold esb_pdu_to. cbn. rewrite E. cbn. unfold md_esb. destruct uni; reflexivity.
+  unfold esb_rx_from_body, get_md. cbn. setters. cbn.
+  unfold esb_pdu_to_body. cbn. rewrite E. cbn. unfold md_esb. destruct uni; reflexivity.
 Qed.
 
-Lemma esb_raw_to_from codec uni p :
+Lemma esb_raw_to_from_body codec uni p :
   wfp_esb_raw codec uni p = true -> (if uni then preamble_aa (p_bytes p) else true) = true ->
-  bind (esb_rx_from uni p) (esb_raw_to codec uni) = Ok p.
+  bind (esb_rx_from_body uni p) (esb_raw_to_body codec uni) = Ok p.
 Proof.
   destruct p as [top sub b [m|]]; [destruct m|]; unfold wfp_esb_raw, wfmd_esb, md_no_ble, md_no_d15, md_no_phy;
     intros H Hp; use_wf H; try discriminate.
   use_canon. cbn [p_bytes] in Hp.
-  unfold esb_rx_from, get_md.
+  unfold esb_rx_from_body, get_md.
   destruct uni; cbn [esb_hdr] in E; cbn; [rewrite (force_preamble_id _ Hp)|]; setters; cbn;
-    unfold esb_raw_to; cbn; rewrite E; reflexivity.
+    unfold esb_raw_to_body; cbn; rewrite E; reflexivity.
 Qed.
 
 (** ** PHY *)
@@ -309,65 +309,65 @@ Lemma opt_u32_some z : in_u32 z = true -> opt_u32 (Some z) = Ok (Some z).
 Proof. intros H. unfold opt_u32. now rewrite H. Qed.
 Global Opaque in_i32 opt_i32 opt_u32.
 
-Lemma phy_rx1_from_to raw m : wf_phy_rx1 m = true -> bind (phy_rx1_to raw m) phy_rx1_from = Ok m.
+Lemma phy_rx1_from_to_body raw m : wf_phy_rx1 m = true -> bind (phy_rx1_to_body raw m) phy_rx1_from_body = Ok m.
 Proof.
   destruct m as [f pk rssi ts iq de da en mo sw]. unfold wf_phy_rx1.
   cbn [pr_frequency pr_packet pr_rssi pr_timestamp pr_iq pr_deviation pr_datarate pr_endian pr_modulation pr_syncword].
   intros H. split_and. destruct iq; [|discriminate]. destruct sw; [|discriminate].
   repeat match goal with H : (_ =? 0) = true |- _ => apply Z.eqb_eq in H; subst end.
-  unfold phy_rx1_to, phy_rx1_from, get_md, md_phy. cbn. setters. reflexivity.
+  unfold phy_rx1_to_body, phy_rx1_from_body, get_md, md_phy. cbn. setters. reflexivity.
 Qed.
 
-Lemma phy_rx1_to_from raw p : wfp_phy false raw p = true -> bind (phy_rx1_from p) (phy_rx1_to raw) = Ok p.
+Lemma phy_rx1_to_from_body raw p : wfp_phy false raw p = true -> bind (phy_rx1_from_body p) (phy_rx1_to_body raw) = Ok p.
 Proof.
   destruct p as [top sub b [m|]]; [destruct m|]; unfold wfp_phy, md_no_ble, md_no_d15, md_no_esb;
     intros H; use_wf H; try discriminate.
-  unfold phy_rx1_from, get_md. cbn. setters. cbn. unfold phy_rx1_to, md_phy. cbn. reflexivity.
+  unfold phy_rx1_from_body, get_md. cbn. setters. cbn. unfold phy_rx1_to_body, md_phy. cbn. reflexivity.
 Qed.
 
-Lemma phy_rx2_from_to raw m : wf_phy_rx2 m = true -> bind (phy_rx2_to raw m) phy_rx2_from = Ok m.
+Lemma phy_rx2_from_to_body raw m : wf_phy_rx2 m = true -> bind (phy_rx2_to_body raw m) phy_rx2_from_body = Ok m.
 Proof.
   destruct m as [f pk rssi ts iq de da en mo sw]. unfold wf_phy_rx2.
   cbn [pr_frequency pr_packet pr_rssi pr_timestamp pr_iq pr_deviation pr_datarate pr_endian pr_modulation pr_syncword].
   intros H. split_and. destruct iq; [|discriminate].
-  unfold phy_rx2_to. cbn [pr_endian pr_modulation].
+  unfold phy_rx2_to_body. cbn [pr_endian pr_modulation].
   repeat match goal with H : (_ <=? _) = true |- _ => rewrite H end. cbn [andb negb bind].
-  unfold phy_rx2_from, get_md, md_phy. cbn. setters.
+  unfold phy_rx2_from_body, get_md, md_phy. cbn. setters.
   rewrite (opt_i32_small en), (opt_i32_small mo) by (assumption || lia). try rewrite !opt_u32_some by assumption. reflexivity.
 Qed.
 
-Lemma phy_rx2_to_from raw p : wfp_phy true raw p = true -> bind (phy_rx2_from p) (phy_rx2_to raw) = Ok p.
+Lemma phy_rx2_to_from_body raw p : wfp_phy true raw p = true -> bind (phy_rx2_from_body p) (phy_rx2_to_body raw) = Ok p.
 Proof.
   destruct p as [top sub b [m|]]; [destruct m|]; unfold wfp_phy, md_no_ble, md_no_d15, md_no_esb;
     intros H; use_wf H; try discriminate.
   repeat match goal with
   | H : match ?v with Some _ => _ | None => false end = true |- _ => destruct v; [|discriminate]
   end. split_and.
-  unfold phy_rx2_from, get_md. cbn. setters.
+  unfold phy_rx2_from_body, get_md. cbn. setters.
   match goal with A : (0 <=? ?e) = true, B : (?e <=? 1) = true |- _ => rewrite (opt_i32_small e) by (assumption || lia) end.
   match goal with A : (0 <=? ?e) = true, B : (?e <=? 7) = true |- _ => rewrite (opt_i32_small e) by (assumption || lia) end.
   try rewrite !opt_u32_some by assumption. cbn.
-  unfold phy_rx2_to. cbn.
+  unfold phy_rx2_to_body. cbn.
   repeat match goal with H : (_ <=? _) = true |- _ => rewrite H end. cbn. reflexivity.
 Qed.
 
 (** ** BLE *)
-Lemma ble_pdu_from_to codec m : wf_ble_pdu codec m = true -> bind (ble_pdu_to codec m) ble_pdu_from = Ok m.
+Lemma ble_pdu_from_to_body codec m : wf_ble_pdu codec m = true -> bind (ble_pdu_to_body codec m) ble_pdu_from_body = Ok m.
 Proof.
   destruct m as [d pdu c pr de]. unfold wf_ble_pdu. cbn [bp_direction bp_pdu bp_conn bp_processed bp_decrypted].
   intros H. split_and. use_canon.
-  unfold ble_pdu_to. cbn [bp_pdu]. rewrite E. cbn [bind fst].
-  unfold ble_pdu_from, has_data, get_md, get_processed, md_ble_pdu, inner. cbn. setters. reflexivity.
+  unfold ble_pdu_to_body. cbn [bp_pdu]. rewrite E. cbn [bind fst].
+  unfold ble_pdu_from_body, has_data, get_md, get_processed, md_ble_pdu, inner. cbn. setters. reflexivity.
 Qed.
 
-Lemma ble_pdu_to_from codec p : wfp_ble_pdu codec p = true -> bind (ble_pdu_from p) (ble_pdu_to codec) = Ok p.
+Lemma ble_pdu_to_from_body codec p : wfp_ble_pdu codec p = true -> bind (ble_pdu_from_body p) (ble_pdu_to_body codec) = Ok p.
 Proof.
   destruct p as [top sub b [m|]]; [destruct m|]; unfold wfp_ble_pdu, md_no_d15, md_no_esb, md_no_phy;
     intros H; use_wf H; try discriminate.
   destruct md_processed as [[pr|]|]; try discriminate.
   use_canon.
-  unfold ble_pdu_from, has_data, get_md, get_processed, inner. cbn. setters. cbn.
-  unfold ble_pdu_to. cbn. rewrite E. reflexivity.
+  unfold ble_pdu_from_body, has_data, get_md, get_processed, inner. cbn. setters. cbn.
+  unfold ble_pdu_to_body. cbn. rewrite E. reflexivity.
 Qed.
 
 Global Opaque btle_frame le32z be24z un_le32z un_be24z.
@@ -380,7 +380,7 @@ Proof.
   apply orb_prop in H0. destruct H0 as [A|A]; apply layer_eqb_inv in A; auto.
 Qed.
 
-Lemma ble_raw_from_to codec m : wf_ble_raw codec m = true -> bind (ble_raw_to codec m) ble_raw_from = Ok m.
+Lemma ble_raw_from_to_body codec m : wf_ble_raw codec m = true -> bind (ble_raw_to_body codec m) ble_raw_from_body = Ok m.
 Proof.
   destruct m as [d ch rssi ts rel valid aa pdu crc conn pr de]. unfold wf_ble_raw.
   cbn [br_direction br_channel br_rssi br_timestamp br_rel_ts br_valid br_aa br_pdu br_crc br_conn br_processed br_decrypted].
@@ -388,16 +388,16 @@ Proof.
   match goal with Hc : canon_btle _ _ = true |- _ => destruct (canon_btle_inv _ _ Hc) as [s [E Hs]] end.
   match goal with Ha : in_u32 aa = true, Hc : in_u24 crc = true |- _ =>
     destruct (btle_frame_parts aa pdu crc Ha Hc) as [P1 [P2 [P3 P4]]]; pose proof (in_u24_u32 _ Hc) end.
-  unfold ble_raw_to. cbn [br_aa br_crc br_pdu br_direction br_channel br_rssi br_timestamp br_rel_ts br_valid br_conn br_processed br_decrypted].
+  unfold ble_raw_to_body. cbn [br_aa br_crc br_pdu br_direction br_channel br_rssi br_timestamp br_rel_ts br_valid br_conn br_processed br_decrypted].
   change (le32z aa ++ pdu ++ be24z crc) with (btle_frame aa pdu crc).
   repeat match goal with H : in_u32 _ = true |- _ => rewrite H end. cbn [andb negb].
   unfold dissect. rewrite E. cbn [bind fst snd].
-  unfold ble_raw_from, has_btle, ble_extract, has_data, has_ctrl, has_adv, btle_aa_crc, inner, get_md, get_processed.
+  unfold ble_raw_from_body, has_btle, ble_extract, has_data, has_ctrl, has_adv, btle_aa_crc, inner, get_md, get_processed.
   cbn [p_top p_sub p_bytes p_md layer_eqb andb orb]. rewrite P1, P2, P3, P4.
   destruct Hs; subst s; cbn; setters; reflexivity.
 Qed.
 
-Lemma ble_raw_to_from codec p : wfp_ble_raw codec p = true -> bind (ble_raw_from p) (ble_raw_to codec) = Ok p.
+Lemma ble_raw_to_from_body codec p : wfp_ble_raw codec p = true -> bind (ble_raw_from_body p) (ble_raw_to_body codec) = Ok p.
 Proof.
   destruct p as [top sub b [m|]]; [destruct m|]; unfold wfp_ble_raw, md_no_d15, md_no_esb, md_no_phy;
     intros H; use_wf H; try discriminate.
@@ -411,11 +411,11 @@ Proof.
   assert (Hsub : ble_extract {| p_top := LBtle; p_sub := sub; p_bytes := b; p_md := None |} = Ok (butlastn 3 (skipn 4 b))).
   { unfold ble_extract, has_data, has_ctrl, has_adv, inner. cbn [p_top p_sub p_bytes layer_eqb andb orb].
     match goal with H : layer_eqb sub LBtleData || layer_eqb sub LBtleAdv = true |- _ => destruct sub; try discriminate H; reflexivity end. }
-  unfold ble_raw_from, has_btle, btle_aa_crc, get_md, get_processed.
+  unfold ble_raw_from_body, has_btle, btle_aa_crc, get_md, get_processed.
   unfold ble_extract, has_data, has_ctrl, has_adv, inner in *. cbn [p_top p_sub p_bytes p_md layer_eqb andb orb] in *.
   rewrite Hsub. replace (length b <? 7)%nat with false by (symmetry; apply Nat.ltb_ge; assumption).
   cbn. setters. cbn.
-  unfold ble_raw_to. cbn. repeat match goal with H : in_u32 _ = true |- _ => rewrite H end. cbn.
+  unfold ble_raw_to_body. cbn. repeat match goal with H : in_u32 _ = true |- _ => rewrite H end. cbn.
   match goal with |- context[dissect codec LBtle ?f] => replace f with b by (symmetry; exact J1) end.
   unfold dissect. rewrite E. reflexivity.
 Qed.
@@ -441,7 +441,7 @@ Proof. intros <-. rewrite skipn_app, skipn_all, Nat.sub_diag. reflexivity. Qed.
 Lemma firstn_app_len {A} (a b : list A) n : length a = n -> firstn n (a ++ b) = a.
 Proof. intros <-. rewrite firstn_app, firstn_all, Nat.sub_diag. cbn. apply app_nil_r. Qed.
 
-Lemma ble_adv_from_to codec m : wf_ble_adv codec m = true -> bind (ble_adv_to codec m) (ble_adv_from codec) = Ok m.
+Lemma ble_adv_from_to_body codec m : wf_ble_adv codec m = true -> bind (ble_adv_to_body codec m) (ble_adv_from_body codec) = Ok m.
 Proof.
   destruct m as [t rssi addr data at_]. unfold wf_ble_adv. cbn [ba_type ba_rssi ba_addr ba_data ba_addr_type].
   intros H. split_and.
@@ -449,10 +449,10 @@ Proof.
   destruct (adv_tables _ _ _ Et) as [Einv Hpt].
   match goal with Hc : canon _ _ _ = true |- _ => destruct (canon_inv _ _ _ Hc) as [s Ec] end.
   match goal with Hl : (length addr =? 6)%nat = true |- _ => pose proof Hl as Hl6; apply Nat.eqb_eq in Hl6 end.
-  unfold ble_adv_to. cbn [ba_type ba_rssi ba_addr ba_data ba_addr_type]. rewrite Et.
+  unfold ble_adv_to_body. cbn [ba_type ba_rssi ba_addr ba_data ba_addr_type]. rewrite Et.
   match goal with Hl : (length addr =? 6)%nat = true |- _ => rewrite Hl end. cbn [negb].
   unfold dissect. rewrite Ec. cbn [bind fst].
-  unfold ble_adv_from, has_adv, inner, get_md, md_ble_adv. cbn [p_top p_sub p_bytes p_md layer_eqb orb andb].
+  unfold ble_adv_from_body, has_adv, inner, get_md, md_ble_adv. cbn [p_top p_sub p_bytes p_md layer_eqb orb andb].
   assert (Hh : zb (bz (pt + (if at_ =? 1 then 64 else 0))) = pt + (if at_ =? 1 then 64 else 0)).
   { rewrite zb_bz. destruct (at_ =? 1); lia. }
   rewrite Hh.
@@ -470,7 +470,7 @@ Proof.
   rewrite Ha. reflexivity.
 Qed.
 
-Lemma ble_adv_to_from codec p : wfp_ble_adv codec p = true -> bind (ble_adv_from codec p) (ble_adv_to codec) = Ok p.
+Lemma ble_adv_to_from_body codec p : wfp_ble_adv codec p = true -> bind (ble_adv_from_body codec p) (ble_adv_to_body codec) = Ok p.
 Proof.
   destruct p as [top sub b [m|]]; [destruct m|]; unfold wfp_ble_adv, md_no_d15, md_no_esb, md_no_phy;
     intros H; proj_red H; split_and; try discriminate.
@@ -484,9 +484,9 @@ Proof.
   match goal with Hw : wf_bytes [h0; l] = true |- _ => pose proof (wf_bytes_forall _ Hw) as Hb end.
   assert (Hh0 : (h0 < 256)%N) by (apply Hb; cbn; auto).
   assert (Hl0 : (l < 256)%N) by (apply Hb; cbn; auto).
-  unfold ble_adv_from, has_adv, inner, get_md. cbn [p_top p_sub p_bytes p_md layer_eqb orb andb].
+  unfold ble_adv_from_body, has_adv, inner, get_md. cbn [p_top p_sub p_bytes p_md layer_eqb orb andb].
   rewrite Et, Ec. cbn [bind md_rssi]. rewrite set_i32_ok by assumption. cbn [bind].
-  unfold ble_adv_to. cbn [ba_type ba_rssi ba_addr ba_data ba_addr_type]. rewrite Einv.
+  unfold ble_adv_to_body. cbn [ba_type ba_rssi ba_addr ba_data ba_addr_type]. rewrite Einv.
   assert (Hlen6 : length (firstn 6 pay) = 6%nat) by (rewrite firstn_length; lia).
   rewrite Hlen6. cbn [Nat.eqb negb].
   assert (Hpay : firstn 6 pay ++ (if layer_eqb cls LAdvDirect then firstn 6 (skipn 6 pay) else skipn 6 pay) = pay).
@@ -536,12 +536,12 @@ Proof.
       match goal with H : layer_eqb sub LBtleData || layer_eqb sub LBtleAdv = true |- _ => destruct sub; try discriminate H; reflexivity end. }
     unfold ble_extract, has_data, has_ctrl, has_adv, inner in Hsub. cbn [p_top p_sub p_bytes p_md layer_eqb andb orb] in Hsub.
     eexists. eexists. split; [|split].
-    + unfold hub_convert, get_md, ble_convert, ble_send_raw_from, get_md, has_btle, btle_aa_crc.
+    + unfold hub_convert, md_or_none, ble_convert, ble_send_raw_from, ble_send_raw_from_body, get_md, has_btle, btle_aa_crc.
       unfold ble_extract, has_data, has_ctrl, has_adv, inner.
       cbn [p_top p_sub p_bytes p_md md_cls md_raw md_encrypt md_direction md_conn bind mdcls_eqb truthy layer_eqb negb andb orb].
       rewrite Hsub. replace (length b <? 7)%nat with false by (symmetry; apply Nat.ltb_ge; assumption).
       cbn [bind fst snd]. setters. cbn [bind set_bool]. reflexivity.
-    + cbn [send_to_packet]. unfold ble_send_raw_to. reflexivity.
+    + cbn [send_to_packet]. unfold ble_send_raw_to, ble_send_raw_to_body. reflexivity.
     + unfold send_same, md_ble_send.
       cbn [p_top p_bytes p_md md_cls md_raw md_channel md_direction md_conn md_encrypt md_retr retr_of bsr_aa bsr_pdu bsr_crc
            bsr_direction bsr_conn bsr_encrypt layer_eqb mdcls_eqb truthy Bool.eqb].
@@ -550,18 +550,18 @@ Proof.
   - (* raw = Some false *)
     use_canon.
     eexists. eexists. split; [|split].
-    + unfold hub_convert, get_md, ble_convert, ble_send_from, get_md, ble_extract, has_data, has_ctrl, has_adv, inner.
+    + unfold hub_convert, md_or_none, ble_convert, ble_send_from, ble_send_from_body, get_md, ble_extract, has_data, has_ctrl, has_adv, inner.
       cbn [p_top p_sub p_bytes p_md md_cls md_raw md_encrypt md_direction md_conn bind mdcls_eqb truthy layer_eqb negb andb orb].
       setters. cbn [bind set_bool]. reflexivity.
-    + cbn [send_to_packet]. unfold ble_send_to. cbn [bs_pdu]. rewrite E. reflexivity.
+    + cbn [send_to_packet]. unfold ble_send_to, ble_send_to_body. cbn [bs_pdu]. rewrite E. reflexivity.
     + unfold send_same, md_ble_send. cbn. finish_same.
   - (* raw = None *)
     use_canon.
     eexists. eexists. split; [|split].
-    + unfold hub_convert, get_md, ble_convert, ble_send_from, get_md, ble_extract, has_data, has_ctrl, has_adv, inner.
+    + unfold hub_convert, md_or_none, ble_convert, ble_send_from, ble_send_from_body, get_md, ble_extract, has_data, has_ctrl, has_adv, inner.
       cbn [p_top p_sub p_bytes p_md md_cls md_raw md_encrypt md_direction md_conn bind mdcls_eqb truthy layer_eqb negb andb orb].
       setters. cbn [bind set_bool]. reflexivity.
-    + cbn [send_to_packet]. unfold ble_send_to. cbn [bs_pdu]. rewrite E. reflexivity.
+    + cbn [send_to_packet]. unfold ble_send_to, ble_send_to_body. cbn [bs_pdu]. rewrite E. reflexivity.
     + unfold send_same, md_ble_send. cbn. finish_same.
 Qed.
 
@@ -577,24 +577,24 @@ Proof.
     match goal with Hw : wf_bytes b = true, Hl : (2 <= length b)%nat |- _ => destruct (join_fcs b Hw Hl) as [Ej Eu] end.
     use_canon.
     eexists. eexists. split; [|split].
-    + unfold hub_convert, get_md, d15_convert, d15_send_raw_from, get_md.
+    + unfold hub_convert, md_or_none, d15_convert, d15_send_raw_from, d15_send_raw_from_body, get_md, md_or_none.
       cbn [p_top p_sub p_bytes p_md md_cls md_raw md_channel bind mdcls_eqb truthy layer_eqb negb andb orb].
       replace (length b <? 2)%nat with false by (symmetry; apply Nat.ltb_ge; assumption).
       setters. cbn [bind]. reflexivity.
-    + cbn [send_to_packet]. unfold d15_send_raw_to. cbn [dsr_fcs dsr_pdu dsr_channel]. rewrite Eu. cbn [negb].
+    + cbn [send_to_packet]. unfold d15_send_raw_to, d15_send_raw_to_body. cbn [dsr_fcs dsr_pdu dsr_channel]. rewrite Eu. cbn [negb].
       rewrite Ej, E. reflexivity.
     + unfold send_same, md_d15. cbn. finish_same.
   - use_canon. eexists. eexists. split; [|split].
-    + unfold hub_convert, get_md, d15_convert, d15_send_from, has_d15, get_md.
+    + unfold hub_convert, md_or_none, d15_convert, d15_send_from, d15_send_from_body, has_d15, get_md, md_or_none.
       cbn [p_top p_sub p_bytes p_md md_cls md_raw md_channel bind mdcls_eqb truthy layer_eqb negb andb orb].
       setters. cbn [bind]. reflexivity.
-    + cbn [send_to_packet]. unfold d15_send_to. cbn [ds_pdu]. rewrite E. reflexivity.
+    + cbn [send_to_packet]. unfold d15_send_to, d15_send_to_body. cbn [ds_pdu]. rewrite E. reflexivity.
     + unfold send_same, md_d15. cbn. finish_same.
   - use_canon. eexists. eexists. split; [|split].
-    + unfold hub_convert, get_md, d15_convert, d15_send_from, has_d15, get_md.
+    + unfold hub_convert, md_or_none, d15_convert, d15_send_from, d15_send_from_body, has_d15, get_md, md_or_none.
       cbn [p_top p_sub p_bytes p_md md_cls md_raw md_channel bind mdcls_eqb truthy layer_eqb negb andb orb].
       setters. cbn [bind]. reflexivity.
-    + cbn [send_to_packet]. unfold d15_send_to. cbn [ds_pdu]. rewrite E. reflexivity.
+    + cbn [send_to_packet]. unfold d15_send_to, d15_send_to_body. cbn [ds_pdu]. rewrite E. reflexivity.
     + unfold send_same, md_d15. cbn. finish_same.
 Qed.
 
@@ -613,10 +613,10 @@ Proof.
         destruct mretr as [[r|]|]; apply set_u32_ok; assumption);
   destruct mraw as [[|]|]; cbn [truthy] in *; split_and; inv_opts; subst; use_canon;
   (eexists; eexists; split; [|split];
-   [ unfold hub_convert, get_md, esb_convert, esb_tx_from, get_md;
+   [ unfold hub_convert, md_or_none, esb_convert, esb_tx_from, esb_tx_from_body, get_md, md_or_none;
      cbn [esb_mdcls p_top p_sub p_bytes p_md md_cls md_raw md_channel md_retr bind mdcls_eqb truthy];
      rewrite Hr; setters; cbn [bind]; reflexivity
-   | cbn [send_to_packet]; unfold esb_send_raw_to, esb_send_to; cbn [et_pdu esb_hdr esb_payload] in *; rewrite E; cbn [bind fst]; reflexivity
+   | cbn [send_to_packet]; unfold esb_send_raw_to, esb_send_raw_to_body, esb_send_to, esb_send_to_body; cbn [et_pdu esb_hdr esb_payload] in *; rewrite E; cbn [bind fst]; reflexivity
    | unfold send_same, md_esb, retr_of; cbn;
      try match goal with Hp : preamble_aa b = true |- _ => rewrite (force_preamble_id _ Hp) end;
      destruct mretr as [[r|]|]; finish_same ])).
@@ -631,7 +631,7 @@ Proof.
     unfold sendable_phy; intros H; proj_red H; split_and; try discriminate.
   inv_opts. subst.
   exists (PSend {| ps_packet := b |}). eexists. split; [|split; [|split]].
-  - unfold hub_convert, get_md, phy_convert, get_md. cbn [p_md md_cls md_raw bind mdcls_eqb].
+  - unfold hub_convert, md_or_none, phy_convert, get_md, md_or_none. cbn [p_md md_cls md_raw bind mdcls_eqb].
     match goal with Hx : negb (truthy mraw) = true |- _ => apply negb_true_iff in Hx; rewrite Hx end.
     reflexivity.
   - reflexivity.
@@ -639,149 +639,158 @@ Proof.
   - reflexivity.
 Qed.
 
-(** ** from_packet never raises on a packet whose metadata is complete *)
-Lemma btle_join_u32 b : wf_bytes b = true -> (7 <= length b)%nat -> True.
-Proof. trivial. Qed.
+(** ** The decorated methods: [convert_failsafe] / [dissect_failsafe] around the bodies *)
+Lemma lift_from_to {A} (tob : out packet) (fromb : packet -> out A) (m : A) :
+  bind tob fromb = Ok m -> bind (failsafe_to tob) (fun p => failsafe (fromb p)) = Ok m.
+Proof. destruct tob as [p| |e]; cbn; try discriminate. intros ->. reflexivity. Qed.
+Lemma lift_to_from {A} (fromb : out A) (tob : A -> out packet) (p : packet) :
+  bind fromb tob = Ok p -> bind (failsafe fromb) (fun m => failsafe_to (tob m)) = Ok p.
+Proof. destruct fromb as [m| |e]; cbn; try discriminate. intros ->. reflexivity. Qed.
 
-Transparent in_u32 set_u32 un_le32z un_be24z.
-Lemma set_u32_le32 b : wf_bytes b = true -> exists z, set_u32 (Some (un_le32z b)) = Ok z.
-Proof.
-  intros Hw. unfold set_u32.
-  assert (H : in_u32 (un_le32z b) = true).
-  { unfold un_le32z, in_u32, two32. destruct b as [|a0 [|a1 [|a2 [|a3 r]]]]; try reflexivity.
-    pose proof (wf_bytes_forall _ Hw) as Hb.
-    assert ((a0 < 256)%N /\ (a1 < 256)%N /\ (a2 < 256)%N /\ (a3 < 256)%N) by (repeat split; apply Hb; cbn; auto).
-    unfold zb. lia. }
-  rewrite H. eauto.
-Qed.
-Lemma set_u32_be24 b : wf_bytes b = true -> exists z, set_u32 (Some (un_be24z b)) = Ok z.
-Proof.
-  intros Hw. unfold set_u32.
-  assert (H : in_u32 (un_be24z b) = true).
-  { unfold un_be24z, in_u32, two32. destruct b as [|a0 [|a1 [|a2 r]]]; try reflexivity.
-    pose proof (wf_bytes_forall _ Hw) as Hb.
-    assert ((a0 < 256)%N /\ (a1 < 256)%N /\ (a2 < 256)%N) by (repeat split; apply Hb; cbn; auto).
-    unfold zb. lia. }
-  rewrite H. eauto.
-Qed.
-Lemma set_u32_le16 b : wf_bytes b = true -> exists z, set_u32 (Some (un_le16z b)) = Ok z.
-Proof.
-  intros Hw. unfold set_u32.
-  assert (H : in_u32 (un_le16z b) = true).
-  { unfold un_le16z, in_u32, two32. destruct b as [|a0 [|a1 r]]; try reflexivity.
-    pose proof (wf_bytes_forall _ Hw) as Hb.
-    assert ((a0 < 256)%N /\ (a1 < 256)%N) by (repeat split; apply Hb; cbn; auto).
-    unfold zb. lia. }
-  rewrite H. eauto.
-Qed.
-Global Opaque in_u32 set_u32 un_le32z un_be24z.
+Lemma d15_pdu_from_to codec m : wf_d15_pdu codec m = true -> bind (d15_pdu_to codec m) d15_pdu_from = Ok m.
+Proof. intros H. apply (lift_from_to (d15_pdu_to_body codec m) d15_pdu_from_body), d15_pdu_from_to_body, H. Qed.
+Lemma d15_pdu_to_from codec p : wfp_d15_pdu codec p = true -> bind (d15_pdu_from p) (d15_pdu_to codec) = Ok p.
+Proof. intros H. apply (lift_to_from (d15_pdu_from_body p) (d15_pdu_to_body codec)), d15_pdu_to_from_body, H. Qed.
+Lemma d15_raw_from_to codec m : wf_d15_raw codec m = true -> bind (d15_raw_to codec m) d15_raw_from = Ok m.
+Proof. intros H. apply (lift_from_to (d15_raw_to_body codec m) d15_raw_from_body), d15_raw_from_to_body, H. Qed.
+Lemma d15_raw_to_from codec p : wfp_d15_raw codec p = true -> bind (d15_raw_from p) (d15_raw_to codec) = Ok p.
+Proof. intros H. apply (lift_to_from (d15_raw_from_body p) (d15_raw_to_body codec)), d15_raw_to_from_body, H. Qed.
+Lemma esb_pdu_from_to codec uni m :
+  wf_esb_rx codec (esb_payload uni) m = true -> bind (esb_pdu_to codec uni m) (esb_rx_from false) = Ok m.
+Proof. intros H. apply (lift_from_to (esb_pdu_to_body codec uni m) (esb_rx_from_body false)), esb_pdu_from_to_body, H. Qed.
+Lemma esb_raw_from_to codec uni m :
+  wf_esb_rx codec (esb_hdr uni) m = true -> (if uni then preamble_aa (er_pdu m) else true) = true ->
+  bind (esb_raw_to codec uni m) (esb_rx_from uni) = Ok m.
+Proof. intros H Hp. apply (lift_from_to (esb_raw_to_body codec uni m) (esb_rx_from_body uni)), esb_raw_from_to_body; assumption. Qed.
+Lemma esb_pdu_to_from codec uni p :
+  wfp_esb_pdu codec uni p = true -> bind (esb_rx_from false p) (esb_pdu_to codec uni) = Ok p.
+Proof. intros H. apply (lift_to_from (esb_rx_from_body false p) (esb_pdu_to_body codec uni)), esb_pdu_to_from_body, H. Qed.
+Lemma esb_raw_to_from codec uni p :
+  wfp_esb_raw codec uni p = true -> (if uni then preamble_aa (p_bytes p) else true) = true ->
+  bind (esb_rx_from uni p) (esb_raw_to codec uni) = Ok p.
+Proof. intros H Hp. apply (lift_to_from (esb_rx_from_body uni p) (esb_raw_to_body codec uni)), esb_raw_to_from_body; assumption. Qed.
+Lemma phy_rx1_from_to raw m : wf_phy_rx1 m = true -> bind (phy_rx1_to raw m) phy_rx1_from = Ok m.
+Proof. intros H. apply (lift_from_to (phy_rx1_to_body raw m) phy_rx1_from_body), phy_rx1_from_to_body, H. Qed.
+Lemma phy_rx1_to_from raw p : wfp_phy false raw p = true -> bind (phy_rx1_from p) (phy_rx1_to raw) = Ok p.
+Proof. intros H. apply (lift_to_from (phy_rx1_from_body p) (phy_rx1_to_body raw)), phy_rx1_to_from_body, H. Qed.
+Lemma phy_rx2_from_to raw m : wf_phy_rx2 m = true -> bind (phy_rx2_to raw m) phy_rx2_from = Ok m.
+Proof. intros H. apply (lift_from_to (phy_rx2_to_body raw m) phy_rx2_from_body), phy_rx2_from_to_body, H. Qed.
+Lemma phy_rx2_to_from raw p : wfp_phy true raw p = true -> bind (phy_rx2_from p) (phy_rx2_to raw) = Ok p.
+Proof. intros H. apply (lift_to_from (phy_rx2_from_body p) (phy_rx2_to_body raw)), phy_rx2_to_from_body, H. Qed.
+Lemma ble_pdu_from_to codec m : wf_ble_pdu codec m = true -> bind (ble_pdu_to codec m) ble_pdu_from = Ok m.
+Proof. intros H. apply (lift_from_to (ble_pdu_to_body codec m) ble_pdu_from_body), ble_pdu_from_to_body, H. Qed.
+Lemma ble_pdu_to_from codec p : wfp_ble_pdu codec p = true -> bind (ble_pdu_from p) (ble_pdu_to codec) = Ok p.
+Proof. intros H. apply (lift_to_from (ble_pdu_from_body p) (ble_pdu_to_body codec)), ble_pdu_to_from_body, H. Qed.
+Lemma ble_raw_from_to codec m : wf_ble_raw codec m = true -> bind (ble_raw_to codec m) ble_raw_from = Ok m.
+Proof. intros H. apply (lift_from_to (ble_raw_to_body codec m) ble_raw_from_body), ble_raw_from_to_body, H. Qed.
+Lemma ble_raw_to_from codec p : wfp_ble_raw codec p = true -> bind (ble_raw_from p) (ble_raw_to codec) = Ok p.
+Proof. intros H. apply (lift_to_from (ble_raw_from_body p) (ble_raw_to_body codec)), ble_raw_to_from_body, H. Qed.
+Lemma ble_adv_from_to codec m : wf_ble_adv codec m = true -> bind (ble_adv_to codec m) (ble_adv_from codec) = Ok m.
+Proof. intros H. apply (lift_from_to (ble_adv_to_body codec m) (ble_adv_from_body codec)), ble_adv_from_to_body, H. Qed.
+Lemma ble_adv_to_from codec p : wfp_ble_adv codec p = true -> bind (ble_adv_from codec p) (ble_adv_to codec) = Ok p.
+Proof. intros H. apply (lift_to_from (ble_adv_from_body codec p) (ble_adv_to_body codec)), ble_adv_to_from_body, H. Qed.
 
-Lemma wf_bytes_skipn n b : wf_bytes b = true -> wf_bytes (skipn n b) = true.
-Proof.
-  unfold wf_bytes. rewrite !forallb_forall. intros H x Hx. apply H.
-  rewrite <- (firstn_skipn n b). apply in_or_app. right. exact Hx.
-Qed.
+(** ** from_packet never raises *)
+Definition only_caught {A} (x : out A) : bool := match x with Raise e => caught_from e | _ => true end.
+Lemma oc_bind {A B} (x : out A) (f : A -> out B) :
+  only_caught x = true -> (forall a, only_caught (f a) = true) -> only_caught (bind x f) = true.
+Proof. destruct x; cbn; auto. Qed.
+Lemma failsafe_no_raise {A} (x : out A) : only_caught x = true -> raises (failsafe x) = false.
+Proof. destruct x as [a| |e]; cbn; try reflexivity. intros H. now rewrite H. Qed.
+Lemma omap_no_raise {A B} (f : A -> B) (x : out A) : raises x = false -> raises (omap f x) = false.
+Proof. destruct x; cbn; auto. Qed.
 
-Ltac ok_setters :=
+Transparent set_u32 set_i32 opt_i32 opt_u32 opt_u64.
+Lemma oc_set_u32 v : only_caught (set_u32 v) = true.
+Proof. unfold set_u32. destruct v as [z|]; [destruct (in_u32 z)|]; reflexivity. Qed.
+Lemma oc_set_i32 v : only_caught (set_i32 v) = true.
+Proof. unfold set_i32. destruct v as [z|]; [destruct (in_i32 z)|]; reflexivity. Qed.
+Lemma oc_set_bool v : only_caught (set_bool v) = true.
+Proof. destruct v; reflexivity. Qed.
+Lemma oc_opt_i32 v : only_caught (opt_i32 v) = true.
+Proof. unfold opt_i32. destruct v as [z|]; [destruct (in_i32 z)|]; reflexivity. Qed.
+Lemma oc_opt_u32 v : only_caught (opt_u32 v) = true.
+Proof. unfold opt_u32. destruct v as [z|]; [destruct (in_u32 z)|]; reflexivity. Qed.
+Lemma oc_opt_u64 v : only_caught (opt_u64 v) = true.
+Proof. unfold opt_u64. destruct v as [z|]; [destruct (in_u64 z)|]; reflexivity. Qed.
+Global Opaque set_u32 set_i32 opt_i32 opt_u32 opt_u64.
+Lemma oc_get_md p : only_caught (get_md p) = true.
+Proof. unfold get_md. destruct (p_md p); reflexivity. Qed.
+Lemma oc_get_processed m : only_caught (get_processed m) = true.
+Proof. unfold get_processed. destruct (md_processed m); reflexivity. Qed.
+Lemma oc_aa_crc p : only_caught (btle_aa_crc p) = true.
+Proof. unfold btle_aa_crc. destruct (length (p_bytes p) <? 7)%nat; reflexivity. Qed.
+Lemma oc_extract p : only_caught (ble_extract p) = true.
+Proof. unfold ble_extract. destruct (has_data p), (has_ctrl p), (has_adv p); reflexivity. Qed.
+
+Ltac oc :=
   repeat first
-  [ rewrite set_u32_ok by assumption | rewrite set_i32_ok by assumption
-  | rewrite opt_i32_ok by assumption | rewrite opt_u32_ok by assumption | rewrite opt_u64_ok by assumption ];
-  cbn [bind set_bool omap raises].
+  [ reflexivity
+  | apply oc_set_u32 | apply oc_set_i32 | apply oc_set_bool | apply oc_opt_i32 | apply oc_opt_u32 | apply oc_opt_u64
+  | apply oc_get_md | apply oc_get_processed | apply oc_aa_crc | apply oc_extract
+  | apply oc_bind; [|intros ?]
+  | match goal with |- context[if ?c then _ else _] => destruct c end
+  | match goal with |- only_caught (match ?x with _ => _ end) = true => destruct x end ].
 
-Ltac case_ifs :=
-  repeat match goal with
-  | |- context[if ?c then _ else _] => destruct c
-  end.
-
-Lemma from_packet_total codec c kw p :
-  md_ok c kw p = true -> wf_bytes (p_bytes p) = true -> raises (from_packet_any codec c kw p) = false.
+Lemma from_packet_never_raises codec c kw p : raises (from_packet_any codec c kw p) = false.
 Proof.
-  destruct p as [top sub b [m|]];
-    [destruct m as [mc mraw mdec mts mch mrssi mdir mconn mvalid mrel menc mproc mlqi maddr mretr mfreq men mde mda mmo msw]|].
-  2: { destruct c; cbn; intros; try discriminate; reflexivity. }
-  destruct kw as [kenc kch kretr].
-  unfold md_ok. intros H Hw. proj_red H. cbn [p_bytes] in Hw. split_and.
-  assert (Haa : exists z, set_u32 (Some (un_le32z b)) = Ok z) by (apply set_u32_le32; assumption).
-  assert (Hcrc : exists z, set_u32 (Some (un_be24z (lastn 3 b))) = Ok z) by (apply set_u32_be24; apply wf_bytes_skipn; assumption).
-  assert (Hfcs : exists z, set_u32 (Some (un_le16z (lastn 2 b))) = Ok z) by (apply set_u32_le16; apply wf_bytes_skipn; assumption).
-  destruct Haa as [zaa Haa]. destruct Hcrc as [zcrc Hcrc]. destruct Hfcs as [zfcs Hfcs].
-  destruct c; cbn [from_packet_any kw_encrypt kw_channel kw_retr] in *; split_and; inv_opts; subst.
-  - (* CBleSendRaw *)
-    unfold ble_send_raw_from, get_md, has_btle, ble_extract, has_data, has_ctrl, has_adv, btle_aa_crc, inner.
-    cbn [p_top p_sub p_bytes p_md md_direction md_conn bind].
-    destruct (layer_eqb top LBtle) eqn:Et; cbn [negb andb orb]; [|reflexivity].
-    match goal with Hl : (7 <=? length b)%nat = true |- _ => apply Nat.leb_le in Hl; replace (length b <? 7)%nat with false by (symmetry; apply Nat.ltb_ge; exact Hl) end.
-    apply layer_eqb_inv in Et. subst top. cbn [layer_eqb orb andb].
-    destruct (layer_eqb sub LBtleData); [|destruct (layer_eqb sub LBtleAdv)]; cbn [bind fst snd]; try reflexivity;
-      rewrite Haa, Hcrc; ok_setters; reflexivity.
-  - (* CBleSend *)
-    unfold ble_send_from, get_md, ble_extract, has_data, has_ctrl, has_adv, inner.
-    cbn [p_top p_sub p_bytes p_md md_direction md_conn bind].
-    case_ifs; cbn [bind]; ok_setters; reflexivity.
-  - (* CBleAdv *)
-    unfold ble_adv_from, has_adv, inner, get_md. cbn [p_top p_sub p_bytes p_md md_rssi].
-    case_ifs; try reflexivity;
-      repeat match goal with |- context[match ?x with _ => _ end] => destruct x; try reflexivity end;
-      cbn [bind md_rssi]; ok_setters; reflexivity.
-  - (* CBlePdu *)
-    destruct mproc as [[pr|]|]; try discriminate.
-    unfold ble_pdu_from, has_data, get_md, get_processed, inner. cbn [p_top p_sub p_bytes p_md md_direction md_conn md_processed md_decrypted bind].
-    case_ifs; cbn [negb bind]; ok_setters; reflexivity.
-  - (* CBleRaw *)
-    destruct mproc as [[pr|]|]; try discriminate.
-    unfold ble_raw_from, has_btle, ble_extract, has_data, has_ctrl, has_adv, btle_aa_crc, inner, get_md, get_processed.
-    cbn [p_top p_sub p_bytes p_md md_direction md_conn md_channel md_processed md_decrypted md_rssi md_timestamp md_rel_ts md_valid bind].
-    destruct (layer_eqb top LBtle) eqn:Et; [|reflexivity].
-    match goal with Hl : (7 <=? length b)%nat = true |- _ => apply Nat.leb_le in Hl; replace (length b <? 7)%nat with false by (symmetry; apply Nat.ltb_ge; exact Hl) end.
-    apply layer_eqb_inv in Et. subst top. cbn [layer_eqb orb andb].
-    destruct (layer_eqb sub LBtleData); [|destruct (layer_eqb sub LBtleAdv)]; cbn [bind fst snd]; try reflexivity;
-      rewrite Haa, Hcrc; ok_setters; reflexivity.
-  - (* CD15Send *)
-    unfold d15_send_from, has_d15. cbn [p_top p_bytes]. case_ifs; ok_setters; reflexivity.
-  - (* CD15SendRaw *)
-    unfold d15_send_raw_from. cbn [p_top p_bytes].
-    destruct (layer_eqb top LDot15d4FCS) eqn:Et.
-    + match goal with Hl : (2 <=? length b)%nat = true |- _ => apply Nat.leb_le in Hl; replace (length b <? 2)%nat with false by (symmetry; apply Nat.ltb_ge; exact Hl) end.
-      ok_setters. reflexivity.
-    + case_ifs; ok_setters; reflexivity.
-  - (* CD15Pdu *)
-    unfold d15_pdu_from, has_d15, get_md. cbn [p_top p_bytes p_md].
-    case_ifs; cbn [negb bind orb md_channel md_lqi md_rssi md_timestamp md_valid]; ok_setters; reflexivity.
-  - (* CD15Raw *)
-    unfold d15_raw_from, get_md. cbn [p_top p_bytes p_md].
-    Transparent split_fcs. unfold split_fcs. cbn [fst snd]. Opaque split_fcs.
-    case_ifs; cbn [bind md_channel md_lqi md_rssi md_timestamp md_valid]; try reflexivity; ok_setters; rewrite Hfcs; ok_setters; reflexivity.
-  - unfold esb_tx_from, get_md. cbn [p_md md_channel bind]. ok_setters. reflexivity.
-  - unfold esb_tx_from, get_md. cbn [p_md md_channel bind]. ok_setters. reflexivity.
-  - unfold esb_rx_from, get_md. cbn [p_top p_md p_bytes md_channel md_rssi md_timestamp bind andb]. ok_setters. reflexivity.
-  - unfold esb_rx_from, get_md. cbn [p_top p_md p_bytes md_channel md_rssi md_timestamp bind andb]. ok_setters. reflexivity.
-  - unfold esb_tx_from, get_md. cbn [p_md md_channel bind]. ok_setters. reflexivity.
-  - unfold esb_tx_from, get_md. cbn [p_md md_channel bind]. ok_setters. reflexivity.
-  - unfold esb_rx_from, get_md. cbn [p_top p_md p_bytes md_channel md_rssi md_timestamp bind andb]. ok_setters. reflexivity.
-  - unfold esb_rx_from, get_md. cbn [p_top p_md p_bytes md_channel md_rssi md_timestamp bind andb]. ok_setters. reflexivity.
-  - reflexivity.
-  - reflexivity.
-  - unfold phy_rx1_from, get_md. cbn [p_md md_frequency md_rssi md_timestamp bind]. ok_setters. reflexivity.
-  - unfold phy_rx2_from, get_md. cbn [p_md md_frequency md_rssi md_timestamp md_endianness md_datarate md_deviation md_modulation bind]. ok_setters. reflexivity.
-  - unfold phy_rx1_from, get_md. cbn [p_md md_frequency md_rssi md_timestamp bind]. ok_setters. reflexivity.
-  - unfold phy_rx2_from, get_md. cbn [p_md md_frequency md_rssi md_timestamp md_endianness md_datarate md_deviation md_modulation bind]. ok_setters. reflexivity.
+  destruct c; cbn [from_packet_any]; apply omap_no_raise; try reflexivity;
+    unfold ble_send_raw_from, ble_send_from, ble_adv_from, ble_pdu_from, ble_raw_from, d15_send_from, d15_send_raw_from,
+      d15_pdu_from, d15_raw_from, esb_tx_from, esb_rx_from, phy_rx1_from, phy_rx2_from;
+    apply failsafe_no_raise;
+    unfold ble_send_raw_from_body, ble_send_from_body, ble_adv_from_body, ble_pdu_from_body, ble_raw_from_body, d15_send_from_body,
+      d15_send_raw_from_body, d15_pdu_from_body, d15_raw_from_body, esb_tx_from_body, esb_rx_from_body, phy_rx1_from_body,
+      phy_rx2_from_body; cbn zeta; oc.
+Qed.
+
+Lemma omap_raises_inv {A B} (f : A -> B) (x : out A) : raises (omap f x) = false -> raises x = false.
+Proof. destruct x; cbn; auto. Qed.
+Lemma bind_ok_no_raise {A B C} (x : out A) (g : A -> B) (k : B -> C) :
+  raises x = false -> raises (bind (bind x (fun a => Ok (g a))) (fun b => Ok (k b))) = false.
+Proof. destruct x; cbn; auto. Qed.
+
+Definition kw_of (e : option bool) (ch r : option Z) : kwargs := {| kw_encrypt := e; kw_channel := ch; kw_retr := r |}.
+Lemma nr_ble_send_raw e p : raises (ble_send_raw_from e p) = false.
+Proof. exact (omap_raises_inv _ _ (from_packet_never_raises (fun _ _ => CStruct) CBleSendRaw (kw_of e None None) p)). Qed.
+Lemma nr_ble_send e p : raises (ble_send_from e p) = false.
+Proof. exact (omap_raises_inv _ _ (from_packet_never_raises (fun _ _ => CStruct) CBleSend (kw_of e None None) p)). Qed.
+Lemma nr_d15_send_raw ch p : raises (d15_send_raw_from ch p) = false.
+Proof. exact (omap_raises_inv _ _ (from_packet_never_raises (fun _ _ => CStruct) CD15SendRaw (kw_of None ch None) p)). Qed.
+Lemma nr_d15_send ch p : raises (d15_send_from ch p) = false.
+Proof. exact (omap_raises_inv _ _ (from_packet_never_raises (fun _ _ => CStruct) CD15Send (kw_of None ch None) p)). Qed.
+Lemma nr_esb_tx r p : raises (esb_tx_from r p) = false.
+Proof. exact (omap_raises_inv _ _ (from_packet_never_raises (fun _ _ => CStruct) CEsbSend (kw_of None None r) p)). Qed.
+
+Lemma hub_convert_never_raises p : raises (hub_convert p) = false.
+Proof.
+  unfold hub_convert, md_or_none. destruct (p_md p) as [md|] eqn:Emd; [|reflexivity]. cbn [bind].
+  destruct (md_cls md) eqn:Ec;
+    unfold ble_convert, d15_convert, esb_convert, phy_convert, md_or_none; try rewrite Emd; cbn [bind]; rewrite ?Ec;
+    cbn [mdcls_eqb esb_mdcls]; try reflexivity; destruct (truthy (md_raw md));
+    try (apply bind_ok_no_raise; first [apply nr_ble_send_raw | apply nr_ble_send | apply nr_d15_send_raw | apply nr_d15_send | apply nr_esb_tx]);
+    reflexivity.
 Qed.
 
 (** ** Inputs a conversion cannot represent give None *)
 Lemma ble_adv_to_unknown codec m : adv_layer_of_type (ba_type m) = None -> ble_adv_to codec m = NoneR.
-Proof. intros H. unfold ble_adv_to. now rewrite H. Qed.
+Proof. intros H. unfold ble_adv_to, ble_adv_to_body. now rewrite H. Qed.
 Lemma ble_adv_to_bad_addr codec m : length (ba_addr m) <> 6%nat -> ble_adv_to codec m = NoneR.
 Proof.
-  intros H. unfold ble_adv_to. destruct (adv_layer_of_type (ba_type m)) as [[c pt]|]; [|reflexivity].
+  intros H. unfold ble_adv_to, ble_adv_to_body. destruct (adv_layer_of_type (ba_type m)) as [[c pt]|]; [|reflexivity].
   apply Nat.eqb_neq in H. now rewrite H.
 Qed.
+
+Lemma failsafe_none {A} (x : out A) : x = NoneR -> failsafe x = NoneR.
+Proof. intros ->. reflexivity. Qed.
+Lemma failsafe_to_none {A} (x : out A) : x = NoneR -> failsafe_to x = NoneR.
+Proof. intros ->. reflexivity. Qed.
 
 Lemma from_without_layer :
   (forall p, has_btle p = false -> ble_raw_from p = NoneR)
   /\ (forall p, has_data p = false -> ble_pdu_from p = NoneR)
   /\ (forall codec p, has_adv p = false -> ble_adv_from codec p = NoneR)
-  /\ (forall e p md, p_md p = Some md -> has_btle p = false -> ble_send_raw_from e p = NoneR)
-  /\ (forall e p md, p_md p = Some md -> has_data p = false -> has_ctrl p = false -> has_adv p = false -> ble_send_from e p = NoneR)
+  /\ (forall e p, has_btle p = false -> ble_send_raw_from e p = NoneR)
+  /\ (forall e p, has_data p = false -> has_ctrl p = false -> has_adv p = false -> ble_send_from e p = NoneR)
   /\ (forall p, has_d15 p = false -> d15_pdu_from p = NoneR)
   /\ (forall p, layer_eqb (p_top p) LDot15d4FCS || layer_eqb (p_top p) LDot15d4Raw = false -> d15_raw_from p = NoneR)
   /\ (forall ch p, has_d15 p || layer_eqb (p_top p) LDot15d4Raw = false -> d15_send_from ch p = NoneR)
@@ -789,17 +798,67 @@ Lemma from_without_layer :
   /\ (forall p md, p_md p = Some md -> md_cls md = MdOther -> hub_convert p = NoneR).
 Proof.
   repeat split; intros.
-  - unfold ble_raw_from. now rewrite H.
-  - unfold ble_pdu_from. now rewrite H.
-  - unfold ble_adv_from. now rewrite H.
-  - unfold ble_send_raw_from, get_md. rewrite H, H0. reflexivity.
-  - unfold ble_send_from, get_md, ble_extract. rewrite H, H0, H1, H2. reflexivity.
-  - unfold d15_pdu_from. now rewrite H.
-  - unfold d15_raw_from. now rewrite H.
-  - unfold d15_send_from. now rewrite H.
-  - unfold d15_send_raw_from. unfold has_d15 in H.
+  - apply failsafe_none. unfold ble_raw_from_body. now rewrite H.
+  - apply failsafe_none. unfold ble_pdu_from_body. now rewrite H.
+  - apply failsafe_none. unfold ble_adv_from_body. now rewrite H.
+  - unfold ble_send_raw_from, ble_send_raw_from_body, get_md. destruct (p_md p); cbn [bind]; [rewrite H|]; reflexivity.
+  - unfold ble_send_from, ble_send_from_body, get_md, ble_extract. destruct (p_md p); cbn [bind]; [rewrite H, H0, H1|]; reflexivity.
+  - apply failsafe_none. unfold d15_pdu_from_body. now rewrite H.
+  - apply failsafe_none. unfold d15_raw_from_body. now rewrite H.
+  - apply failsafe_none. unfold d15_send_from_body. now rewrite H.
+  - apply failsafe_none. unfold d15_send_raw_from_body. unfold has_d15 in H.
     destruct (layer_eqb (p_top p) LDot15d4FCS), (layer_eqb (p_top p) LDot15d4), (layer_eqb (p_top p) LDot15d4Raw); try discriminate; reflexivity.
-  - unfold hub_convert, get_md. rewrite H. cbn [bind]. now rewrite H0.
+  - unfold hub_convert, md_or_none. rewrite H. cbn [bind]. now rewrite H0.
+Qed.
+
+(** a packet without metadata, or whose metadata lacks an item the message needs *)
+Lemma from_without_metadata codec c kw p :
+  p_md p = None -> match c with CPhySend | CPhySendRaw | CD15Send | CD15SendRaw => false | _ => true end = true ->
+  from_packet_any codec c kw p = NoneR.
+Proof.
+  intros H Hc.
+  destruct c; try discriminate Hc; cbn [from_packet_any];
+    unfold ble_send_raw_from, ble_send_from, ble_adv_from, ble_pdu_from, ble_raw_from, d15_send_from, d15_send_raw_from,
+      d15_pdu_from, d15_raw_from, esb_tx_from, esb_rx_from, phy_rx1_from, phy_rx2_from,
+      ble_send_raw_from_body, ble_send_from_body, ble_adv_from_body, ble_pdu_from_body, ble_raw_from_body, d15_send_from_body,
+      d15_send_raw_from_body, d15_pdu_from_body, d15_raw_from_body, esb_tx_from_body, esb_rx_from_body, phy_rx1_from_body,
+      phy_rx2_from_body, get_md, ble_extract, btle_aa_crc; rewrite ?H; cbn zeta; cbn [bind failsafe caught_from omap].
+  all: try reflexivity.
+  all: repeat match goal with
+       | |- context[if ?c then _ else _] => destruct c
+       | |- context[match ?x with _ => _ end] => destruct x
+       end; cbn [bind failsafe caught_from omap]; try reflexivity.
+Qed.
+Lemma hub_convert_without_metadata p : p_md p = None -> hub_convert p = NoneR.
+Proof. intros H. unfold hub_convert, md_or_none. now rewrite H. Qed.
+
+Transparent set_u32.
+Lemma set_u32_none_caught {A} (f : Z -> out A) : failsafe (bind (set_u32 None) f) = NoneR.
+Proof. reflexivity. Qed.
+Global Opaque set_u32.
+
+(** the channel (802.15.4, ESB, Unifying) / the frequency (PHY) is None *)
+Lemma from_without_channel :
+  (forall p md, p_md p = Some md -> md_channel md = None -> d15_pdu_from p = NoneR /\ d15_raw_from p = NoneR)
+  /\ (forall f p md, p_md p = Some md -> md_channel md = None -> esb_rx_from f p = NoneR)
+  /\ (forall r p md, p_md p = Some md -> md_channel md = None -> esb_tx_from r p = NoneR)
+  /\ (forall p md, p_md p = Some md -> md_frequency md = None -> phy_rx1_from p = NoneR /\ phy_rx2_from p = NoneR)
+  /\ (forall p md, p_md p = Some md -> md_cls md = MdD15 -> md_channel md = None -> hub_convert p = NoneR).
+Proof.
+  repeat split; intros.
+  - unfold d15_pdu_from, d15_pdu_from_body, get_md. rewrite H. destruct (negb (has_d15 p)); [reflexivity|]. cbn [bind]. rewrite H0. reflexivity.
+  - unfold d15_raw_from, d15_raw_from_body, get_md. rewrite H.
+    destruct (layer_eqb (p_top p) LDot15d4FCS || layer_eqb (p_top p) LDot15d4Raw); [|reflexivity].
+    destruct (length (p_bytes p) <? 2)%nat; [reflexivity|]. cbn zeta. cbn [bind]. rewrite H0. reflexivity.
+  - unfold esb_rx_from, esb_rx_from_body, get_md. rewrite H. cbn zeta. cbn [bind]. rewrite H0. reflexivity.
+  - unfold esb_tx_from, esb_tx_from_body, get_md. rewrite H. cbn [bind]. rewrite H0. reflexivity.
+  - unfold phy_rx1_from, phy_rx1_from_body, get_md. rewrite H. cbn [bind]. rewrite H0. reflexivity.
+  - unfold phy_rx2_from, phy_rx2_from_body, get_md. rewrite H. cbn [bind]. rewrite H0. reflexivity.
+  - unfold hub_convert, md_or_none. rewrite H. cbn [bind]. rewrite H0.
+    unfold d15_convert, md_or_none. rewrite H. cbn [bind]. rewrite H0. cbn [mdcls_eqb]. rewrite H1.
+    unfold d15_send_raw_from, d15_send_from, d15_send_raw_from_body, d15_send_from_body.
+    destruct (truthy (md_raw md)); cbn zeta;
+      repeat match goal with |- context[if ?c then _ else _] => destruct c end; reflexivity.
 Qed.
 
 (** a PDU scapy cannot dissect (struct.error) gives None through dissect_failsafe; a raw 802.15.4
@@ -819,73 +878,80 @@ Lemma to_packet_undissectable codec :
         exists p, d15_raw_to codec m = Ok p /\ p_top p = LDot15d4Raw /\ p_bytes p = dr_pdu m ++ le16z (dr_fcs m)).
 Proof.
   repeat split; intros;
-    try (unfold ble_send_to, ble_pdu_to, d15_send_to, d15_pdu_to, esb_send_to, esb_send_raw_to, esb_pdu_to, esb_raw_to, dissect;
+    try (apply failsafe_to_none;
+         unfold ble_send_to_body, ble_pdu_to_body, d15_send_to_body, d15_pdu_to_body, esb_send_to_body, esb_send_raw_to_body,
+           esb_pdu_to_body, esb_raw_to_body, dissect;
          rewrite H; reflexivity).
-  - unfold ble_raw_to, dissect. destruct (negb (in_u32 (br_aa m) && in_u32 (br_crc m))); [reflexivity|]. rewrite H. reflexivity.
-  - unfold d15_send_raw_to, dissect. destruct (negb (in_u16 (dsr_fcs m))); [reflexivity|]. rewrite H. reflexivity.
-  - unfold d15_raw_to. rewrite H. cbn [negb]. rewrite H0. eexists. repeat split.
+  - apply failsafe_to_none. unfold ble_raw_to_body, dissect. destruct (negb (in_u32 (br_aa m) && in_u32 (br_crc m))); [reflexivity|]. rewrite H. reflexivity.
+  - apply failsafe_to_none. unfold d15_send_raw_to_body, dissect. destruct (negb (in_u16 (dsr_fcs m))); [reflexivity|]. rewrite H. reflexivity.
+  - unfold d15_raw_to, d15_raw_to_body. rewrite H. cbn [negb]. rewrite H0. eexists. repeat split.
 Qed.
 
-(** out-of-range integers (struct.pack raises struct.error) give None *)
+(** out-of-range integers (struct.pack raises struct.error) and PHY endian / modulation values outside
+    their enum (ValueError) give None *)
 Lemma to_packet_out_of_range codec :
   (forall m, in_u32 (br_aa m) && in_u32 (br_crc m) = false -> ble_raw_to codec m = NoneR)
   /\ (forall m, in_u16 (dsr_fcs m) = false -> d15_send_raw_to codec m = NoneR)
-  /\ (forall m, in_u16 (dr_fcs m) = false -> d15_raw_to codec m = NoneR).
+  /\ (forall m, in_u16 (dr_fcs m) = false -> d15_raw_to codec m = NoneR)
+  /\ (forall raw m, (0 <=? pr_endian m) && (pr_endian m <=? 1) && ((0 <=? pr_modulation m) && (pr_modulation m <=? 7)) = false ->
+        phy_rx2_to raw m = NoneR).
 Proof.
   repeat split; intros.
-  - unfold ble_raw_to. now rewrite H.
-  - unfold d15_send_raw_to. now rewrite H.
-  - unfold d15_raw_to. now rewrite H.
+  - apply failsafe_to_none. unfold ble_raw_to_body. now rewrite H.
+  - apply failsafe_to_none. unfold d15_send_raw_to_body. now rewrite H.
+  - apply failsafe_to_none. unfold d15_raw_to_body. now rewrite H.
+  - unfold phy_rx2_to, phy_rx2_to_body.
+    destruct ((0 <=? pr_endian m) && (pr_endian m <=? 1)); cbn [negb]; [|reflexivity].
+    cbn [andb] in H. rewrite H. reflexivity.
 Qed.
 
-(** to_packet raises only when scapy itself raises something else than struct.error, for the PHY
-    SendRawPacket message and for an endian / modulation value outside its enum *)
-Lemma dissect_no_raise codec k b : codec_no_exc codec -> raises (dissect codec k b) = false.
-Proof. intros H. unfold dissect. destruct (codec k b) eqn:E; try reflexivity. exfalso. exact (H _ _ _ E). Qed.
+(** ** to_packet raises only when scapy raises something dissect_failsafe does not catch, and for the
+    PHY SendRawPacket message (known finding) *)
+Lemma dissect_only_to codec k b : codec_no_exc codec -> raises (failsafe_to (bind (dissect codec k b) (fun r => Ok r))) = false.
+Proof. intros H. unfold dissect. destruct (codec k b) eqn:E; try reflexivity. cbn. now rewrite (H _ _ _ E). Qed.
 
-Lemma bind_no_raise {A B} (x : out A) (f : A -> out B) :
-  raises x = false -> (forall a, raises (f a) = false) -> raises (bind x f) = false.
-Proof. destruct x; cbn; intros; auto. Qed.
+Definition only_caught_to {A} (x : out A) : bool := match x with Raise e => caught_to e | _ => true end.
+Lemma failsafe_to_no_raise {A} (x : out A) : only_caught_to x = true -> raises (failsafe_to x) = false.
+Proof. destruct x as [a| |e]; cbn; try reflexivity. intros H. now rewrite H. Qed.
+Lemma oct_bind {A B} (x : out A) (f : A -> out B) :
+  only_caught_to x = true -> (forall a, only_caught_to (f a) = true) -> only_caught_to (bind x f) = true.
+Proof. destruct x; cbn; auto. Qed.
+Lemma oct_dissect codec k b : codec_no_exc codec -> only_caught_to (dissect codec k b) = true.
+Proof. intros H. unfold dissect. destruct (codec k b) eqn:E; try reflexivity. exact (H _ _ _ E). Qed.
 
 Lemma to_packet_total codec c b :
-  codec_no_exc codec -> well_typed c b = true -> phy_enum_ok c b = true -> raises (to_packet_any codec c b) = false.
+  codec_no_exc codec -> well_typed c b = true -> match c with CPhySendRaw => false | _ => true end = true ->
+  raises (to_packet_any codec c b) = false.
 Proof.
   intros Hc Hw He.
   destruct c, b; try discriminate Hw; try discriminate He; cbn [to_packet_any];
-    try reflexivity;
-    try (unfold ble_send_to, ble_pdu_to, d15_send_to, d15_pdu_to, esb_send_to, esb_send_raw_to, esb_pdu_to, esb_raw_to;
-         apply bind_no_raise; [apply dissect_no_raise; assumption | reflexivity]).
-  - unfold ble_adv_to. destruct (adv_layer_of_type (ba_type m)) as [[cl pt]|]; [|reflexivity].
-    destruct (negb (length (ba_addr m) =? 6)%nat); [reflexivity|].
-    apply bind_no_raise; [apply dissect_no_raise; assumption | reflexivity].
-  - unfold ble_raw_to. destruct (negb (in_u32 (br_aa m) && in_u32 (br_crc m))); [reflexivity|].
-    apply bind_no_raise; [apply dissect_no_raise; assumption | reflexivity].
-  - unfold d15_send_raw_to. destruct (negb (in_u16 (dsr_fcs m))); [reflexivity|].
-    apply bind_no_raise; [apply dissect_no_raise; assumption | reflexivity].
-  - unfold d15_raw_to. destruct (negb (in_u16 (dr_fcs m))); [reflexivity|].
-    destruct (codec LDot15d4FCS (dr_pdu m ++ le16z (dr_fcs m))) eqn:E; try reflexivity. exfalso. exact (Hc _ _ _ E).
-  - cbn [phy_enum_ok] in He. split_and. unfold phy_rx2_to.
-    repeat match goal with H : (_ <=? _) = true |- _ => rewrite H end. reflexivity.
-  - cbn [phy_enum_ok] in He. split_and. unfold phy_rx2_to.
-    repeat match goal with H : (_ <=? _) = true |- _ => rewrite H end. reflexivity.
+    unfold ble_send_raw_to, ble_send_to, ble_adv_to, ble_pdu_to, ble_raw_to, d15_send_to, d15_send_raw_to, d15_pdu_to, d15_raw_to,
+      esb_send_to, esb_send_raw_to, esb_pdu_to, esb_raw_to, phy_send_to, phy_rx1_to, phy_rx2_to;
+    apply failsafe_to_no_raise;
+    unfold ble_send_raw_to_body, ble_send_to_body, ble_adv_to_body, ble_pdu_to_body, ble_raw_to_body, d15_send_to_body,
+      d15_send_raw_to_body, d15_pdu_to_body, d15_raw_to_body, esb_send_to_body, esb_send_raw_to_body, esb_pdu_to_body,
+      esb_raw_to_body, phy_send_to_body, phy_rx1_to_body, phy_rx2_to_body; cbn zeta;
+    repeat first
+    [ reflexivity
+    | apply oct_dissect; assumption
+    | apply oct_bind; [|intros ?]
+    | match goal with |- context[if ?c then _ else _] => destruct c end
+    | match goal with |- only_caught_to (match ?x with _ => _ end) = true => destruct x eqn:? end
+    | match goal with E : codec _ _ = CExc ?e |- only_caught_to (Raise ?e) = true => exact (Hc _ _ _ E) end ].
 Qed.
 
 (** ** Refutations (known findings): concrete witnesses, evaluated by the kernel's VM *)
-
-(** a non-optional metadata item that is None makes from_packet raise TypeError (one witness per domain) *)
-Lemma from_packet_raises_ble : from_packet_any codec_id CBlePdu kw_default (pkt_with LBtleData MdBle None) = Raise TypeError.
-Proof. vm_compute. reflexivity. Qed.
-Lemma from_packet_raises_d15 : from_packet_any codec_id CD15Pdu kw_default (pkt_with LDot15d4 MdD15 None) = Raise TypeError.
-Proof. vm_compute. reflexivity. Qed.
-Lemma from_packet_raises_esb : from_packet_any codec_id CEsbPdu kw_default (pkt_with LEsbPayload MdEsb None) = Raise TypeError.
-Proof. vm_compute. reflexivity. Qed.
-Lemma from_packet_raises_uni :
-  from_packet_any codec_id CUniPdu kw_default {| p_top := LUniPayload; p_sub := LRaw; p_bytes := []; p_md := None |} = Raise AttributeError.
-Proof. vm_compute. reflexivity. Qed.
-Lemma from_packet_raises_phy : from_packet_any codec_id CPhyPkt1 kw_default (pkt_with LPhy MdPhy None) = Raise TypeError.
-Proof. vm_compute. reflexivity. Qed.
-Lemma hub_convert_raises_d15 : hub_convert (pkt_with LDot15d4 MdD15 None) = Raise TypeError.
-Proof. vm_compute. reflexivity. Qed.
+(** what used to raise now gives None (regression witnesses of the repaired findings) *)
+Lemma metadata_none_witnesses :
+  from_packet_any codec_id CBlePdu kw_default (pkt_with LBtleData MdBle None) = NoneR
+  /\ from_packet_any codec_id CD15Pdu kw_default (pkt_with LDot15d4 MdD15 None) = NoneR
+  /\ hub_convert (pkt_with LDot15d4 MdD15 None) = NoneR
+  /\ from_packet_any codec_id CEsbPdu kw_default (pkt_with LEsbPayload MdEsb None) = NoneR
+  /\ from_packet_any codec_id CUniPdu kw_default {| p_top := LUniPayload; p_sub := LRaw; p_bytes := []; p_md := None |} = NoneR
+  /\ from_packet_any codec_id CPhyPkt1 kw_default (pkt_with LPhy MdPhy None) = NoneR
+  /\ phy_rx2_to false {| pr_frequency := 1; pr_packet := []; pr_rssi := None; pr_timestamp := None; pr_iq := [];
+                         pr_deviation := 0; pr_datarate := 0; pr_endian := 5; pr_modulation := 0; pr_syncword := [] |} = NoneR.
+Proof. repeat split; vm_compute; reflexivity. Qed.
 
 (** Unifying raw PDU with preamble 0x55: the first byte comes back as 0xAA *)
 Lemma uni_raw_preamble_refuted :
@@ -910,15 +976,7 @@ Lemma phy_send_raw_refuted :
   /\ send_to_packet codec_id (SPhy (PSendRaw {| psr_iq := [] |})) = Raise AttributeError.
 Proof. split; vm_compute; reflexivity. Qed.
 
-(** PHY v2: an endian value outside the enum makes to_packet raise ValueError *)
-Lemma phy_enum_refuted :
-  phy_rx2_to false {| pr_frequency := 1; pr_packet := []; pr_rssi := None; pr_timestamp := None; pr_iq := [];
-                      pr_deviation := 0; pr_datarate := 0; pr_endian := 5; pr_modulation := 0; pr_syncword := [] |}
-  = Raise ValueError.
-Proof. vm_compute. reflexivity. Qed.
-
-(** ** Non-vacuity: a concrete BLE raw notification with every optional item present, negative RSSI,
-    a 64-bit timestamp, under a codec that dissects every byte string *)
+(** ** Non-vacuity *)
 Lemma nonvacuous :
   wf_ble_raw codec_btle sample_ble_raw = true
   /\ (exists p, ble_raw_to codec_btle sample_ble_raw = Ok p /\ wfp_ble_raw codec_btle p = true
